@@ -256,8 +256,40 @@ def split2_facts(z, sep, a, b):
     """z == a + sep + b with no separator in a: the first piece is a, the others are the pieces of b"""
     c = sv(sep)
     return [z3.Implies(z3.And(z == z3.Concat(a, c, b), z3.Not(z3.Contains(a, c))),
-                       z3.And(PIECE[sep](z, 0) == a, NPIECES[sep](z) == 1 + NPIECES[sep](b),
+                       z3.And(PIECE[sep](z, 0) == a, NPIECES[sep](z) == 1 + NPIECES[sep](b), REST_AFTER_FIRST[sep](z) == b,
                               z3.Implies(z3.Not(z3.Contains(b, c)), PIECE[sep](z, 1) == b)))] + split_facts(b, sep)
+
+
+REST_AFTER_FIRST = {"/": z3.Function("text_after_first_slash", S, S), "=": z3.Function("text_after_first_equals", S, S)}
+WORD_SUFFIX = z3.Function("longest_suffix_of_word_characters", S, S)       # maximal suffix matching [a-zA-Z_0-9]*
+IS_WORD = z3.Function("is_nonempty_and_only_word_characters", S, B)        # matches [a-zA-Z_0-9]+ entirely
+
+
+def word_facts(k):
+    """ASSUMED regex class [a-zA-Z_0-9]: the longest word-character suffix of k is k itself exactly when k is a non-empty word"""
+    w = WORD_SUFFIX(k)
+    return [z3.SuffixOf(w, k), IS_WORD(k) == z3.And(w == k, z3.Length(k) > 0), z3.Not(z3.Contains(w, EQ)), z3.Not(z3.Contains(w, SL)),
+            z3.Implies(z3.Length(w) > 0, IS_WORD(w))]
+
+
+class RegexKV:
+    """util.ex_from_sep('/') == re.compile('([a-zA-Z_0-9]+)=([^/]+)')"""
+    tracked = False
+
+    def call_method(self, eng, p, name, args, kw, node):
+        if name != "findall" or len(args) != 1 or text_of(args[0]) is None:
+            raise Unsupported("regex." + name)
+        # ASSUMED re.findall with two groups on a '/'-separated text: scanning left to right, one (key, value) pair per level k=v (k without
+        # '='): key = the longest suffix of k made of word characters (it must be non-empty for the level to match at this '='), value =
+        # everything after that '=' up to the next '/' (non-empty).  (A level whose k ends with a non-word character may still match at a
+        # later '=' inside v: not modelled.)
+        seq = SplitV(text_of(args[0]), "/")
+        lvl = text_of(seq.arbitrary(eng, p))
+        k, v = PIECE["="](lvl, 0), REST_AFTER_FIRST["="](lvl)
+        p.axioms += split_facts(lvl, "=") + word_facts(k)
+        guard = z3.And(z3.Contains(lvl, EQ), z3.Length(WORD_SUFFIX(k)) > 0, z3.Length(v) > 0)
+        comp = WComp(Tup([Custom(TextV(WORD_SUFFIX(k))), Custom(TextV(v))]), guard, Custom(seq))
+        return [(p, Custom(comp))]
 
 
 class SplitV:
@@ -2631,7 +2663,7 @@ def run_paths_to_cats(ctx, funcs, timeout, written_as, with_meta, clean, homog=T
     state["attempt"] = 0
     state["assumed"] = set()
     handlers = {"zip": h_zip, "set": h_set, "OrderedDict": h_ordered, "list": h_list, "val_to_num": h_val_to_num_cut, "str": h_str,
-                "ex_from_sep": lambda e, q, a, k, n: [(q, Opaque("regex"))]}
+                "ex_from_sep": lambda e, q, a, k, n: [(q, Custom(RegexKV()) if a and isinstance(a[0], Str) and a[0].s == "/" else Opaque("regex"))]}
     eng = REng(funcs=funcs, handlers=handlers, inline=("_strip_path_tail", "_path_to_cats"), opaque_calls=True)
     p = Path()
     p.pc += [R.N >= 0, 0 <= R.iL, R.iL < R.D] + hyp_at(R.j0, R.iL)[:-4] + R.path_hyps(R.j0)
@@ -3518,6 +3550,9 @@ ASSUMED = [
     "with '/') and '/' + the rest; names and value texts contain no '/'.  Bounded instantiation (only after the general query is UNDECIDED, only "
     "to find a counter-model, never to prove): two directory levels, names from {a, b, ab, ba, aa}, the text functions evaluated with their "
     "Python meaning on the literals",
+    "util.ex_from_sep('/') is re.compile('([a-zA-Z_0-9]+)=([^/]+)'); findall on a '/'-separated text yields, per level k=v (k without '='), "
+    "the pair (longest suffix of k made of ASCII word characters - it must be non-empty -, everything after that '=' up to the next '/' - "
+    "non-empty); that suffix is k itself exactly when k is a non-empty word.  No obligation assumes that column names are words",
     "loop exits: a loop that completed did not raise in any iteration; raising paths of the body whose branch conditions do not depend on the "
     "loop-carried state are excluded at the exit for the witness member (universal fact instantiated at the witness)",
 ]
